@@ -52,7 +52,51 @@ var c08Pool []string
 func c08InitPool() {
 	if c08Pool == nil {
 		c08Pool = append(c08Boundaries(), c08LookAlikes...)
+		c08Pool = append(c08Pool, c08LongNumerals()...)
 	}
+}
+
+// long but well-formed numerals (and their just-malformed neighbours): long runs of leading
+// zeros before small values and before the boundary of every width, sign + zeros, digit
+// strings that only overflow after many zeros, very long digit strings, floats with long
+// mantissas / fractions / exponents whose value depends on the END of the text, durations
+func c08LongNumerals() []string {
+	z := func(n int) string { return strings.Repeat("0", n) }
+	var out []string
+	for _, n := range []int{60, 63, 64, 65, 70, 100, 300} {
+		out = append(out, z(n)+"5", "-"+z(n)+"5", "+"+z(n)+"5", z(n), "-"+z(n))
+	}
+	edges := []string{"127", "128", "255", "256", "32767", "32768", "65535", "65536", "2147483647", "2147483648",
+		"4294967295", "4294967296", "9223372036854775807", "9223372036854775808", "18446744073709551615", "18446744073709551616"}
+	negEdges := []string{"128", "129", "32768", "32769", "2147483648", "2147483649", "9223372036854775808", "9223372036854775809"}
+	for _, n := range []int{44, 64, 70, 120} {
+		for _, e := range edges {
+			out = append(out, z(n)+e)
+		}
+		for _, e := range negEdges {
+			out = append(out, "-"+z(n)+e)
+		}
+	}
+	// fits only if the trailing digit is ignored: must be range errors
+	for _, e := range []string{"127", "255", "32767", "65535", "2147483647", "4294967295", "9223372036854775807", "18446744073709551615"} {
+		out = append(out, z(64-len(e))+e+"9", z(44)+e+"9", z(70)+e+"0", "-"+z(63-len(e))+e+"9")
+	}
+	out = append(out,
+		"1"+z(70), "-1"+z(70), strings.Repeat("9", 100), "-"+strings.Repeat("9", 100), strings.Repeat("1", 65), z(70)+"1_0", z(70)+"x", z(70)+" 5", z(63)+"+5",
+		// floats: the value depends on what follows the 64th byte
+		"1"+z(70)+"e-70", "1"+z(70)+"e-71", "-1"+z(70)+"e-70", "0."+z(70)+"1e71", "0."+z(70)+"1", z(70)+"1.5", "-"+z(70)+"2.25", "+"+z(70)+"1.5",
+		"1."+z(80)+"5", "0."+strings.Repeat("3", 100), "1."+strings.Repeat("9", 100), "1e"+z(70)+"5", "1e-"+z(70)+"5", "1.5e+"+z(66)+"2",
+		"1"+z(400), "1"+z(38)+"."+z(40), "1"+z(39)+"."+z(40), "3.4028235"+z(70)+"e38", "3.4028236"+z(70)+"e38", "3"+z(70)+"e-32", "16777217."+z(70), "16777217"+z(60)+"e-60",
+		"9007199254740993"+z(60)+"e-60", "1.000000059604644775390625"+z(60)+"1", z(70)+"1e3", z(64)+".5", "1"+z(70)+"e-70x", "1"+z(70)+"e", "1"+z(70)+"e-",
+		"0x1"+z(70)+"p-280", "1"+z(70)+"_0e-70",
+		// durations
+		z(70)+"5s", "1."+z(70)+"5h", z(70)+"1h"+z(70)+"2m", "0."+z(70)+"1s", z(70)+"9223372036854775807ns", z(70)+"9223372036854775808ns",
+	)
+	return out
+}
+
+func c08LongZeros(r *rand.Rand) string {
+	return strings.Repeat("0", 58+r.Intn(250))
 }
 
 func c08RandBig(r *rand.Rand, bits int) *big.Int {
@@ -67,7 +111,15 @@ func c08RandBig(r *rand.Rand, bits int) *big.Int {
 }
 
 func c08Decorate(r *rand.Rand, s string, signed bool) string {
-	switch r.Intn(12) {
+	switch r.Intn(14) {
+	case 12: // long run of leading zeros (the numeral still denotes the same number)
+		if strings.HasPrefix(s, "-") {
+			return "-" + c08LongZeros(r) + s[1:]
+		}
+		if signed && r.Intn(4) == 0 {
+			return "+" + c08LongZeros(r) + s
+		}
+		return c08LongZeros(r) + s
 	case 0:
 		if signed && !strings.HasPrefix(s, "-") {
 			return "+" + s
@@ -122,8 +174,23 @@ func c08ValidFor(r *rand.Rand, fam int, E reflect.Type) string {
 	case famFloat:
 		l := []string{"0", "1.5", "-2.25", "1e3", "2.5e-3", "3.4028235e38", "0.1", "16777217", "1e-50", "-0", "+Inf", "NaN", "1e39",
 			"1.000000059604644775390625000000000000000001", "9007199254740993", "0x1p-2"}
-		if r.Intn(3) == 0 {
+		switch r.Intn(8) {
+		case 0, 1:
 			return fmt.Sprintf("%d.%de%d", r.Intn(1000)-500, r.Intn(100000), r.Intn(80)-40)
+		case 2: // long mantissa compensated by the exponent, long fraction, zeros in front
+			k := 40 + r.Intn(120)
+			switch r.Intn(5) {
+			case 0:
+				return fmt.Sprintf("%d%se-%d", 1+r.Intn(99), strings.Repeat("0", k), k-r.Intn(3))
+			case 1:
+				return fmt.Sprintf("0.%s%de%d", strings.Repeat("0", k), 1+r.Intn(99), k+r.Intn(3))
+			case 2:
+				return fmt.Sprintf("%s%d.%d", c08LongZeros(r), r.Intn(1000), r.Intn(1000))
+			case 3:
+				return fmt.Sprintf("%d.%s%d", r.Intn(100), strings.Repeat("0", k), 1+r.Intn(9))
+			default:
+				return fmt.Sprintf("%d.5e%s%d", r.Intn(100), strings.Repeat("0", k), r.Intn(30))
+			}
 		}
 		return l[r.Intn(len(l))]
 	case famDur:
@@ -169,12 +236,28 @@ func c08Adversarial(r *rand.Rand, fam int, E reflect.Type) string {
 		k := r.Intn(len(s) + 1)
 		return s[:k] + ins[r.Intn(len(ins))] + s[k:]
 	default:
-		// random decimal of random size
+		// random decimal of random size; sometimes behind a long run of zeros, sometimes very long
 		n := c08RandBig(r, 1+r.Intn(72))
-		if r.Intn(2) == 0 {
-			return "-" + n.String()
+		t := n.String()
+		switch r.Intn(6) {
+		case 0:
+			t = c08LongZeros(r) + t
+		case 1:
+			t = t + c08RandBig(r, 200+r.Intn(600)).String()
+		case 2: // zeros, then a value at the edge of the own range, then one more digit
+			if fam == famInt || fam == famUint || fam == famByte {
+				bits := uint(E.Bits())
+				if fam == famInt {
+					bits--
+				}
+				m := new(big.Int).Sub(new(big.Int).Lsh(big.NewInt(1), bits), big.NewInt(1))
+				t = strings.Repeat("0", 30+r.Intn(60)) + m.String() + []string{"", "", "0", "9"}[r.Intn(4)]
+			}
 		}
-		return n.String()
+		if r.Intn(2) == 0 {
+			return "-" + t
+		}
+		return t
 	}
 }
 
@@ -624,7 +707,7 @@ func c08Mutate(r *rand.Rand, ci any) []any {
 func init() {
 	register(&Prop{
 		ID:             "C08",
-		Rule:           "probe table: every exported ValueBinder method with signature (string,*T)/(string,*[]T) (enumerated by reflect), every BindWithDelimiter destination and every field of a catalogue struct (17 scalar kinds, pointers, slices, slices of pointers, pointers to slices; sources query/Bind/form/multipart/header/param) x 48 decimal boundaries (±(2^w+{-1,0,1}), w=7,8,15,16,31,32,63,64) and ~170 look-alikes (signs, leading zeros, whitespace, 0x/_/e forms, Unicode digits, 40-digit numbers, float32/64 rounding witnesses, duration limits, empty); plus random chains of 2-7 binder ops (calls, FailFast, BindError, BindErrors) and random struct requests of 1-6 fields; non-trivial = a converted text within ±1 of a width boundary or a look-alike of a number, or a call made while the binder already holds an error; distinct = distinct model op lines",
+		Rule:           "probe table: every exported ValueBinder method with signature (string,*T)/(string,*[]T) (enumerated by reflect), every BindWithDelimiter destination and every field of a catalogue struct (17 scalar kinds, pointers, slices, slices of pointers, pointers to slices; sources query/Bind/form/multipart/header/param) x 48 decimal boundaries (±(2^w+{-1,0,1}), w=7,8,15,16,31,32,63,64) and ~170 look-alikes (signs, leading zeros, whitespace, 0x/_/e forms, Unicode digits, 40-digit numbers, float32/64 rounding witnesses, duration limits, empty) and ~210 long numerals (60-300 leading zeros before small values and before every width boundary, sign + zeros, digit strings that overflow only after many zeros, 100-800 digit strings, floats whose value depends on a long mantissa / fraction / exponent tail); plus random chains of 2-7 binder ops (calls, FailFast, BindError, BindErrors) and random struct requests of 1-6 fields; non-trivial = a converted text within ±1 of a width boundary or a look-alike of a number, or a call made while the binder already holds an error; distinct = distinct model op lines",
 		New:            func() any { return &c08Case{} },
 		Gen:            c08Gen,
 		Run:            c08Run,
